@@ -72,7 +72,14 @@ pub fn supervise(worker: JoinHandle<()>, cpu_budget_s: u64) -> i32 {
                 Err(_) => 2,
             };
         }
-        std::thread::sleep(Duration::from_millis(50));
+        // sample every 50 ms, but notice the end of a short scenario within a millisecond
+        let t = std::time::Instant::now();
+        while t.elapsed() < Duration::from_millis(50) && !worker.is_finished() {
+            std::thread::sleep(Duration::from_micros(if t.elapsed() < Duration::from_millis(5) { 200 } else { 1000 }));
+        }
+        if worker.is_finished() {
+            continue;
+        }
         let p = PROGRESS.load(Ordering::Relaxed);
         let ts = tasks();
         let cpu: u64 = ts.iter().map(|t| t.cpu_ticks).sum();
